@@ -1803,7 +1803,7 @@ fn replay(path: &str) {
             let mut child = None;
             let r = run_job(&mut child, &job, 1, Duration::from_secs(20));
             println!("observed now: {:?}", r);
-            println!("expected: Err(..) or a clean runtime error");
+            println!("expected: {}", v["expected"].as_str().unwrap_or("Err(..) or a clean runtime error"));
         }
         _ => {
             let vm = new_vm(prelude);
